@@ -141,9 +141,12 @@ func structFieldByName(t types.Type, name string) (int, types.Type, bool) {
 // bind maps declared parameters to fields of the Params struct (normalised
 // name comparison; ambiguity or absence is reported as a failed obligation).
 func (pf *ParamsFamily) bind(fn *ssa.Function, op *RefOp) ([]paramBinding, []string) {
+	return pf.bindType(fn.Signature.Results().At(0).Type(), op)
+}
+
+func (pf *ParamsFamily) bindType(pt types.Type, op *RefOp) ([]paramBinding, []string) {
 	var out []paramBinding
 	var problems []string
-	pt := fn.Signature.Results().At(0).Type()
 	loc := map[string]string{"query": "Query", "header": "Headers", "path": "Path"}
 	for _, p := range op.Params {
 		ln, ok := loc[p.In]
